@@ -158,8 +158,9 @@ def run_shard(ctx):
         check_case(ctx, case)
         if j < 2:
             acc.sample(dict(input=core.trunc(text, 500), cfg=cfg))
-    # corpus under several configurations
-    docs = corpus.texts()
+    # corpus and small edge documents under several configurations
+    from .c05 import EDGE_DOCS
+    docs = corpus.texts() + EDGE_DOCS + ["<svg/><svg/>", "<svg/><rect wh=\"1\"/>", "<rect wh=\"1\"/><svg/>", ""]
     for i, t in enumerate(docs):
         if not ctx.mine(i):
             continue
